@@ -28,7 +28,7 @@ type fcase struct {
 	Bal    string `json:"balancer"`
 }
 
-var modes = []string{"zero-healthy", "unknown-model", "all-refuse", "all-reset", "all-eof", "all-garbage", "all-circuit-open", "backend-400", "backend-404", "backend-429", "backend-500", "backend-503", "backend-500-nonjson", "backend-401-empty", "backend-503-empty", "backend-500-ansi", "unknown-model-ctrl", "backend-500-large", "backend-400-huge-chunked", "malformed-200-json", "empty-200", "200-empty-object", "200-no-choices", "200-choice-without-message", "200-error-member-only"}
+var modes = []string{"zero-healthy", "unknown-model", "all-refuse", "all-reset", "all-eof", "all-garbage", "all-circuit-open", "backend-400", "backend-404", "backend-429", "backend-500", "backend-503", "backend-500-nonjson", "backend-401-empty", "backend-503-empty", "backend-500-ansi", "unknown-model-ctrl", "backend-500-large", "backend-400-huge-chunked", "malformed-200-json", "empty-200", "200-empty-object", "200-no-choices", "200-choice-without-message", "200-error-member-only", "reset-after-200-headers"}
 var routes = []string{"proxy", "provider", "passthrough", "translated"}
 
 func TestC05(t *testing.T) {
@@ -185,6 +185,17 @@ func oneCase(run *rep.Run, w *world.World, hc *http.Client, bA, bB *backend.Std,
 		target.SetProxy(func(*backend.Record) *backend.Resp {
 			return &backend.Resp{Status: 200, Body: []byte(b), Headers: [][2]string{{"Content-Type", "application/json"}}}
 		})
+	case c.Mode == "reset-after-200-headers":
+		// the only candidate sends its status line and headers, then resets the connection before
+		// a single body byte: the engine reports the attempt as failed
+		st := c.Stream
+		target.SetProxy(func(*backend.Record) *backend.Resp {
+			ct := "application/json"
+			if st {
+				ct = "text/event-stream"
+			}
+			return &backend.Resp{Status: 200, Headers: [][2]string{{"Content-Type", ct}}, Body: []byte("data: {}\n\n"), Chunked: true, Fault: "cut_reset", CutAt: 0}
+		})
 	case c.Mode == "empty-200":
 		target.SetProxy(func(*backend.Record) *backend.Resp {
 			return &backend.Resp{Status: 200, Body: []byte{}, Headers: [][2]string{{"Content-Type", "application/json"}}}
@@ -234,6 +245,13 @@ func oneCase(run *rep.Run, w *world.World, hc *http.Client, bA, bB *backend.Std,
 	// ... and on the translated *streaming* path malformed chunks are skipped by design (C13),
 	// so a 200 whose stream carries nothing usable is translated into an empty message
 	if (c.Mode == "malformed-200-json" || c.Mode == "empty-200" || strings.HasPrefix(c.Mode, "200-")) && (c.Route != "translated" || c.Stream) {
+		run.Count("relayed_as_is", 1)
+		return
+	}
+	// status line and headers of the backend are relayed on the untranslated routes before the
+	// reset is seen: the client has the backend's own (broken) answer. On the translated route
+	// nothing of it has reached the client, and the attempt failed.
+	if c.Mode == "reset-after-200-headers" && c.Route != "translated" {
 		run.Count("relayed_as_is", 1)
 		return
 	}
